@@ -1,6 +1,7 @@
 /- Driver operations for M-lex (C03, C04, C01). -/
 import LuaHelper.Model.Lexer
 import LuaHelper.Driver.Proto
+import LuaHelper.Spec.Col
 namespace LuaHelper.LexOps
 open LuaHelper.Lex LuaHelper.Proto
 
@@ -33,6 +34,24 @@ def handle (cmd : String) (args : List String) : Option String :=
     | some src =>
       let (toks, l) := lexAll src (parseConv conv)
       some (";".intercalate (showToks toks {} []) ++ s!" P{if l.panic then 1 else 0}M{if l.convMissing then 1 else 0}")
+  | "lexcol", [h, conv] =>
+    -- for every identifier token: model (line, startCol, endCol) as LocToRange reports it (line − 1),
+    -- the true LSP position of its first / last+1 byte, and the classes of its line prefix
+    match hexToBytes h with
+    | none => some "bad-op"
+    | some src =>
+      let (toks, l) := lexAll src (parseConv conv)
+      let rec go : List Tok → Token → List String → List String
+        | [], _, acc => acc.reverse
+        | t :: rest, pre, acc =>
+          if t.tok.kind == .ident then
+            let loc := nowLoc pre t.tok {}
+            let (tl, tc) := Col.posOfOffset src t.tok.offFrom
+            let (el, ec) := Col.posOfOffset src t.tok.offTo
+            let item := s!"{bytesToHex t.tok.str},M={loc.sl - 1}:{loc.sc}:{loc.el - 1}:{loc.ec},S={tl}:{tc}:{el}:{ec},K={Col.lineClasses src t.tok.offFrom},O={t.tok.offFrom}:{t.tok.offTo}"
+            go rest t.tok (item :: acc)
+          else go rest t.tok acc
+      some (";".intercalate (go toks {} []) ++ s!" P{if l.panic then 1 else 0}M{if l.convMissing then 1 else 0}")
   | _, _ => none
 
 end LuaHelper.LexOps
